@@ -8,6 +8,7 @@ import (
 	"fmt"
 	"go/constant"
 	"go/types"
+	"strconv"
 	"strings"
 
 	"golang.org/x/tools/go/ssa"
@@ -71,6 +72,13 @@ func (st *sysTypes) formColl(f boolForm) aval {
 	case "nonBoolean":
 		return coll(st.strItem("x"))
 	default:
+		if strings.HasPrefix(f.name, "string ") {
+			return coll(st.strItem(strings.Trim(strings.TrimPrefix(f.name, "string "), "'")))
+		}
+		if strings.HasPrefix(f.name, "integer ") {
+			v, _ := strconv.ParseInt(strings.TrimPrefix(f.name, "integer "), 10, 64)
+			return coll(aval{k: kConst, c: constant.MakeInt64(v), dyn: st.Integer})
+		}
 		return coll(st.boolItem(false), st.boolItem(false))
 	}
 }
@@ -213,7 +221,13 @@ func ruleBOOL1(p *Program) *RuleResult {
 		if err != nil {
 			return r.anchorFail(err)
 		}
-		for _, f := range boolForms {
+		forms := append([]boolForm{}, boolForms...)
+		// a non-Boolean singleton is true whatever it spells: strings that read like Booleans, zero integers
+		for _, sv := range []string{"false", "FALSE", "f", "no", "n", "0", "0.0", "true", ""} {
+			forms = append(forms, boolForm{"string '" + sv + "'", 1})
+		}
+		forms = append(forms, boolForm{"integer 0", 1}, boolForm{"integer 1", 1})
+		for _, f := range forms {
 			r.count("hypotheses", 1)
 			an := newAnalyzer()
 			an.maxBlocks = 200
